@@ -3,7 +3,7 @@ for all eight models.  Explicit-state search over the real emulator: the state
 is the set of open-region stacks of one thread, every documented argument-less
 event of the model is probed in every state."""
 import os, json
-from lib.common import Ctx, Build, Scratch, InfraError
+from lib.common import Ctx, Build, Scratch, InfraError, plan_of
 from lib import emusrv, catalog, pv
 from lib.emusrv import Ev, Fin, i32, i64
 from lib.explore import ServerPool, Explorer, Ref, short_hist, binding_cases
@@ -202,6 +202,8 @@ def nest_walk(ctx, pool, ref, name):
 
 def run(prop, tier):
     ctx = Ctx("C08", tier, "model_checking")
+    tier = plan_of("C08", tier)
+    ctx.cov["plan"] = tier
     scratch = Scratch("C08")
     try:
         build = Build()
